@@ -3,8 +3,8 @@ CONSTANTS
   Kinds = {"A", "B"}
   MaxNest = 3
   MaxSteps = 9
-  ObjAfterMsg = TRUE
-  ClearActive = FALSE
+  ObjAfterMsg = FALSE
+  ClearActive = TRUE
   Emit = FALSE
 VIEW view
 INVARIANT ExcOK
